@@ -47,8 +47,49 @@ def _scaled_single(rnd, g, prices, T, name, node):
     return {'type': 'ScaledAsset', 'name': name, 'base': base, 'args': sargs}
 
 
+def gen_straddle_case(rnd):
+    """a priced asset on a coarser frequency whose block starts in the present and extends into the future: its (present-stage)
+    variable has a cost that depends on future prices"""
+    import pandas as pd
+    grids = [g for g in gen.GRIDS if g[0] == 'h' and g[1] == 'h']
+    s = gen.gen_portfolio(rnd, kinds=['simple'], tmax=8, tmin=4, tz_prob=0.0, allow_mip=False, max_assets=2, nodes_max=1, allow_freq=False,
+                          allow_periodic=False, allow_wacc=False, grids=grids, allow_struct=False, allow_blocks=False)
+    g = s['grid']
+    T = len(g['_pts']) - 1
+    for a in s['assets']:
+        a['args'].pop('start', None)
+        a['args'].pop('end', None)
+    blk = gen.gen_simple_contract(rnd, g, s['prices'], T, 'blk', s['nodes'][0])
+    blk['args'].pop('start', None)
+    blk['args'].pop('end', None)
+    mult = rnd.choice([2, 2, 4]) if T >= 4 else 2
+    blk['args']['freq'] = '%dh' % mult
+    blk['args']['min_cap'], blk['args']['max_cap'] = -gen.q8(rnd, 0.5, 3), gen.q8(rnd, 0.5, 3)
+    if not isinstance(blk['args'].get('price'), str):
+        blk['args']['price'] = gen.price_key(rnd, s['prices'], T)
+    blk['args'].pop('extra_costs', None)
+    s['assets'].append(blk)
+    b0 = rnd.randrange(0, max(1, T // mult)) * mult
+    m = min(T - 1, b0 + rnd.randint(1, mult - 1))
+    sf = gen.P(g, m)
+    nS = rnd.choice([1, 1, 2, 3])
+    samples = []
+    for _ in range(nS):
+        ps = {}
+        for key, vals in s['prices'].items():
+            v = list(vals)
+            if key.startswith(COST_KEY_PREFIX):
+                for t in range(m, len(v)):
+                    v[t] = v[t] + gen.q8(rnd, -8, 8)
+            ps[key] = v
+        samples.append(ps)
+    return {'scn': s, 'sf': gen.iso(sf), 'sf_kind': 'straddle', 'samples': samples, 'family': 'straddle', 'how': 'perturb'}
+
+
 def gen_case(rnd):
     r = rnd.random()
+    if r < 0.08:
+        return gen_straddle_case(rnd)
     family = 'single' if r < 0.45 else ('multi' if r < 0.8 else 'any')
     grids = [g for g in gen.GRIDS if g[0] in ('h', '2h', '4h', 'd', '30min')]
     if family == 'single':
@@ -349,6 +390,21 @@ def oracle(case, ir, drv=None, max_k=3):
         if w > 1e-5:
             viol.append({'oracle': 'slp_recombined_feasible', 'detail': 'scenario %d: (x_present, x_future^%d) violates %s of the base problem by %.3g' % (s, s, what, w), 'facts': {'kind': 'recombined_infeasible'}})
             break
+    # ---- the scenarios of the STATEMENT: every scenario with its own full cost vector.  When the samples share the present
+    #      prices this differs from `cs` only for present-stage variables whose cost depends on future prices: variables of an
+    #      asset on a coarser frequency whose block starts in the present and extends into the future
+    fut_steps = set(int(t) for t in tg.I[first_f:]) if first_f < tg.T else set()
+    m_all = op.mapping
+    strad = sorted(set(int(i) for i in m_all.index[m_all['time_step'].isin(list(fut_steps))]) - set(np.where(mask)[0].tolist()))
+    strad_diff = bool(strad) and any(abs(float(c[j]) - float(op.c[j])) > 1e-12 for c in ir['c_samples'] for j in strad)
+    obs['straddling_present_vars'] = len(strad)
+    facts_s = {'straddling_cost_differs': strad_diff}
+    if case.get('how') in ('perturb', 'identical'):
+        cs = [op.c.copy()] + [np.asarray(c, dtype=float).copy() for c in ir['c_samples']]
+        pres_other = [j for j in np.where(~mask)[0] if j not in set(strad)]
+        if any(np.abs(c[pres_other] - op.c[pres_other]).max(initial=0.0) > 1e-9 * scale for c in cs[1:]):
+            obs['present_costs_differ_although_present_prices_shared'] = True
+            cs = [op.c.copy()] + [np.where(mask, c, op.c) for c in ir['c_samples']]
     # ---- per-scenario optima, wait-and-see bound
     det = []
     for c in cs:
@@ -361,11 +417,11 @@ def oracle(case, ir, drv=None, max_k=3):
     WS = float(np.mean(V))
     obs.update({'V': V, 'WS': WS})
     if V_slp > WS + 2 * tol:
-        viol.append({'oracle': 'slp_le_wait_and_see', 'detail': 'SLP optimum %.8g exceeds the mean of the per-scenario optima %.8g (tolerance %.2g)' % (V_slp, WS, 2 * tol), 'facts': {'kind': 'ws'}})
+        viol.append({'oracle': 'slp_le_wait_and_see', 'detail': 'SLP optimum %.8g exceeds the mean of the per-scenario optima %.8g (tolerance %.2g)' % (V_slp, WS, 2 * tol), 'facts': dict(facts_s, kind='ws')})
     distinct = any(not np.allclose(c, cs[0]) for c in cs[1:])
     obs['scenarios_differ'] = distinct
     if not distinct and abs(V_slp - V[0]) > 2 * tol:
-        viol.append({'oracle': 'slp_eq_det_of_equal', 'detail': 'all scenarios coincide but SLP optimum %.8g differs from the deterministic optimum %.8g' % (V_slp, V[0]), 'facts': {'kind': 'equal_scenarios'}})
+        viol.append({'oracle': 'slp_eq_det_of_equal', 'detail': 'all scenarios coincide but SLP optimum %.8g differs from the deterministic optimum %.8g' % (V_slp, V[0]), 'facts': dict(facts_s, kind='equal_scenarios')})
     # ---- expected value of fixing the present to scenario k's decision
     eev = []
     for k in list(range(nS + 1))[:max_k]:
@@ -387,7 +443,7 @@ def oracle(case, ir, drv=None, max_k=3):
         e = float(np.mean(vals))
         eev.append(e)
         if e > V_slp + 2 * tol:
-            viol.append({'oracle': 'ev_le_slp', 'detail': 'fixing the present to the optimum of scenario %d gives mean value %.8g > SLP optimum %.8g (tolerance %.2g)' % (k, e, V_slp, 2 * tol), 'facts': {'kind': 'eev', 'k': k}})
+            viol.append({'oracle': 'ev_le_slp', 'detail': 'fixing the present to the optimum of scenario %d gives mean value %.8g > SLP optimum %.8g (tolerance %.2g)' % (k, e, V_slp, 2 * tol), 'facts': dict(facts_s, kind='eev', k=k)})
     obs['EEV'] = eev
     obs['chain_strict'] = bool(eev and eev[0] is not None and (V_slp - eev[0] > 10 * tol or WS - V_slp > 10 * tol))
     # ---- read-out of the SLP result (also with several mapping rows per variable and row-less variables)
